@@ -291,6 +291,11 @@ func SpecCorrespondence(c *Ctx, results []*VMResult, budget int, rangeSigned, sl
 	}
 	for i, vr := range results {
 		m, perr := ParseSx(resp[i])
+		if perr == nil && m.Tag() == "refused" {
+			// the driver does not build ranges of more than 2e6 elements (Spec.eval would, before checking the budget)
+			r.Count("spec:refused-huge-range", 1)
+			continue
+		}
 		if perr != nil || (m.Tag() != "ok" && m.Tag() != "err") {
 			r.Mismatch("spec", vr.Case.Src, resp[i], "bad response")
 			continue
